@@ -9,7 +9,8 @@
 //!   utilities, Lagrange-basis SRS and commitments, `msm_specific`, `MSMKZG`,
 //!   `Rational` of `midnight_proofs`.
 //!
-//! Findings on the unchanged tree (each isolated in its own sub-check):
+//! Findings of this check, since repaired in /repo (their sub-checks stay as
+//! regression checks; the main sub-checks generate the shapes too):
 //! * `msm.empty`: `G1Projective::multi_exp(&[], &[])` / `G2Projective::multi_exp`
 //!   panic (blst `p1_affines::from` indexes `points[0]`) — signatures
 //!   `G1Projective::multi_exp:empty:panic`, `G2Projective::multi_exp:empty:panic`;
